@@ -1,7 +1,7 @@
 SPECIFICATION Spec
 CONSTANTS
   Hash <- SHA1
-  Primes = {3, 5, 7, 23, 47, 59}
+  Primes = {3, 5, 7, 23, 47}
   Gens = {2, 7, 255}
 INVARIANT Emit
 CHECK_DEADLOCK FALSE
